@@ -1717,9 +1717,16 @@ func sliceBounds(count, start, length int, hasLength bool) (int, int) {
 func sortedMapKeys(rv reflect.Value) []reflect.Value {
 	keys := rv.MapKeys()
 	sort.SliceStable(keys, func(i, j int) bool {
-		return toString(keys[i].Interface()) < toString(keys[j].Interface())
+		return mapKeyOrder(keys[i].Interface()) < mapKeyOrder(keys[j].Interface())
 	})
 	return keys
+}
+
+// mapKeyOrder is what map keys are ordered by: their string form, then their type, so that
+// keys of different types that print alike (1 and "1" in a map[interface{}]...) have a
+// fixed order too.
+func mapKeyOrder(key interface{}) string {
+	return toString(key) + "\x00" + fmt.Sprintf("%T", key)
 }
 
 func (e *CoreExtension) filterKeys(value interface{}, args ...interface{}) (interface{}, error) {
@@ -1800,14 +1807,16 @@ func (e *CoreExtension) filterMerge(value interface{}, args ...interface{}) (int
 		}
 
 		if !sameType {
+			// (keys in their fixed order: when two keys have the same string form the one
+			// that comes later in that order wins, whatever Go's map order is)
 			generic := make(map[string]interface{}, rv.Len())
-			for _, key := range rv.MapKeys() {
+			for _, key := range sortedMapKeys(rv) {
 				generic[toString(key.Interface())] = rv.MapIndex(key).Interface()
 			}
 			for _, arg := range args {
 				argRv := reflect.ValueOf(arg)
 				if argRv.Kind() == reflect.Map {
-					for _, key := range argRv.MapKeys() {
+					for _, key := range sortedMapKeys(argRv) {
 						generic[toString(key.Interface())] = argRv.MapIndex(key).Interface()
 					}
 				}
@@ -2248,7 +2257,7 @@ func (e *CoreExtension) functionMerge(args ...interface{}) (interface{}, error) 
 		} else {
 			// Use reflection for other map types
 			baseRv := reflect.ValueOf(base)
-			for _, key := range baseRv.MapKeys() {
+			for _, key := range sortedMapKeys(baseRv) {
 				keyStr := toString(key.Interface())
 				result[keyStr] = baseRv.MapIndex(key).Interface()
 			}
@@ -2265,7 +2274,7 @@ func (e *CoreExtension) functionMerge(args ...interface{}) (interface{}, error) 
 				// Use reflection for other map types
 				argRv := reflect.ValueOf(arg)
 				if argRv.Kind() == reflect.Map {
-					for _, key := range argRv.MapKeys() {
+					for _, key := range sortedMapKeys(argRv) {
 						keyStr := toString(key.Interface())
 						result[keyStr] = argRv.MapIndex(key).Interface()
 					}
